@@ -156,7 +156,7 @@ class VcfWriter:
                         "or not associated with any individuals"
                     )
         else:
-            individuals = np.array(individuals, dtype=np.int32)
+            individuals = tskit.util.safe_np_int_cast(individuals, np.int32)
             if len(individuals) == 0:
                 raise ValueError("List of sample individuals empty")
 
